@@ -48,6 +48,7 @@ Version 'variants' are also supported, for example:
 
 # std
 import sys
+import types
 
 # xdis
 from xdis import IS_GRAAL, IS_PYPY
@@ -201,6 +202,30 @@ class _StdApi:
         With no argument, disassemble the last traceback.
 
         """
+        if (
+            hasattr(x, "__dict__")
+            and not hasattr(x, "__func__")
+            and not hasattr(x, "__code__")
+            and not hasattr(x, "co_code")
+        ):
+            # Class or module: disassemble what it has with code, as dis.dis() does
+            have_code = (
+                types.MethodType,
+                types.FunctionType,
+                types.CodeType,
+                classmethod,
+                staticmethod,
+                type,
+            )
+            for name, x1 in sorted(x.__dict__.items()):
+                if isinstance(x1, have_code):
+                    self._print("Disassembly of %s:" % name, file)
+                    try:
+                        self.dis(x1, file)
+                    except TypeError as msg:
+                        self._print("Sorry: %s" % msg, file)
+                    self._print("", file)
+            return
         self._print(self.Bytecode(x).dis(), file)
 
     def distb(self, tb=None, file=None):
